@@ -1,13 +1,46 @@
-"""Sidecar contracts for rnapolis/adapter.py (C19): label normaliser, DSSR class matcher."""
+"""Sidecar contracts for rnapolis/adapter.py (C19): label normaliser, unit-id parser, FR3D line dispatcher and listing loop,
+DSSR class matcher / name resolution / import loops.
+
+Vocabulary
+  ResidueLabel / ResidueAuth / Residue and the five interaction classes are frozen dataclasses -> immutable records.  The
+  classification fields (lw, topology, br, bph) are declared `opt[enum[LeontisWesthof,StackingTopology,BPh,BR]]`: Python does
+  not check the annotated type, so the field can hold a member of any of the four classes or None; a member is encoded by its
+  position in the concatenation of the four member lists (CLS below maps a member's `.value` - unique over the union - to it).
+  InteractionsData is the dict {"base_pairs": [..], ..} of parse_fr3d_output: an OBJECT (shared with
+  _process_interaction_line, which appends to the lists it holds) with one heap field per key.
+  TextFile is an open text file: an object whose ghost field `lines` is what iterating it yields.
+"""
+import z3 as _z3
 
 
 def spec(f):
     return f
 
 
-CLASSES = {}
+UNION = "opt[enum[LeontisWesthof,StackingTopology,BPh,BR]]"
+CLASSES = {
+    "ResidueLabel": {"kind": "record", "fields": {"chain": "str", "number": "int", "name": "str"}},
+    "ResidueAuth": {"kind": "record", "fields": {"chain": "str", "number": "int", "icode": "opt[str]", "name": "str"}},
+    "Residue": {"kind": "record", "fields": {"label": "opt[rec[ResidueLabel]]", "auth": "opt[rec[ResidueAuth]]"}},
+    "BasePair": {"kind": "record", "fields": {"nt1": "rec[Residue]", "nt2": "rec[Residue]", "lw": UNION, "saenger": "opt[enum[Saenger]]"}},
+    "Stacking": {"kind": "record", "fields": {"nt1": "rec[Residue]", "nt2": "rec[Residue]", "topology": UNION}},
+    "BaseRibose": {"kind": "record", "fields": {"nt1": "rec[Residue]", "nt2": "rec[Residue]", "br": UNION}},
+    "BasePhosphate": {"kind": "record", "fields": {"nt1": "rec[Residue]", "nt2": "rec[Residue]", "bph": UNION}},
+    "OtherInteraction": {"kind": "record", "fields": {"nt1": "rec[Residue]", "nt2": "rec[Residue]"}},
+    "BaseInteractions": {"kind": "record", "fields": {"basePairs": "list[rec[BasePair]]", "stackings": "list[rec[Stacking]]",
+                                                      "baseRiboseInteractions": "list[rec[BaseRibose]]",
+                                                      "basePhosphateInteractions": "list[rec[BasePhosphate]]",
+                                                      "otherInteractions": "list[rec[OtherInteraction]]"}},
+    "InteractionsData": {"kind": "object", "dict_keys": True,
+                         "fields": {"base_pairs": "list[rec[BasePair]]", "stackings": "list[rec[Stacking]]",
+                                    "base_ribose_interactions": "list[rec[BaseRibose]]",
+                                    "base_phosphate_interactions": "list[rec[BasePhosphate]]",
+                                    "other_interactions": "list[rec[OtherInteraction]]"}},
+}
 INLINE = []
 PRUNE_BRANCHES = False
+# exceptional exits of one statement are taken in evaluation order (the first subexpression that raises ends the statement)
+ORDERED_RAISES = True
 LW_RE = "n?[cCtT][wWhHsS][wWhHsS]a?"
 ST_RE = "n?s(33|35|53|55)a?"
 BPH_RE = "n?[0-9]BPha?"
@@ -39,3 +72,678 @@ class unify:
 
 
 CONTRACTS = {"unify_classification": unify}
+
+# =====================================================================================================================
+# the rest of C19
+# =====================================================================================================================
+# --------------------------------------------------------------------------------------------- classification members
+# the 18 + 4 + 10 + 10 members of the four classification enums, written out here (not read from the code under
+# verification): member `.value` -> position in the union encoding enum[LeontisWesthof,StackingTopology,BPh,BR]
+LW_VALUES = [c + a + b for c in "ct" for a in "WHS" for b in "WHS"]
+ST_VALUES = ["upward", "downward", "inward", "outward"]
+BPH_VALUES = [f"{k}BPh" for k in range(10)]
+BR_VALUES = [f"{k}BR" for k in range(10)]
+CLS = {v: k for k, v in enumerate(LW_VALUES + ST_VALUES + BPH_VALUES + BR_VALUES)}
+assert len(CLS) == 42
+
+
+def _check_union_encoding():
+    """the table above is the engine's encoding of the real classes (definition order, offsets): checked at import"""
+    from rnapolis.common import BR, BPh, LeontisWesthof, StackingTopology
+    pos = 0
+    for cls in (LeontisWesthof, StackingTopology, BPh, BR):
+        for m in cls:
+            assert CLS[m.value] == pos, (m, pos)
+            pos += 1
+    assert pos == 42 and [m.name for m in LeontisWesthof] == LW_VALUES
+
+
+_check_union_encoding()
+SPEC_CONSTS = {"CLS": CLS, "LW_NAMES": tuple(LW_VALUES)}
+
+
+# --------------------------------------------------------------------------------------------- assumed externals (str)
+def _ext_split(e, args, kw, node, st):
+    """ASSUMED contract of str.split(sep) for a constant non-empty separator (no maxsplit): the list of pieces is a
+    deterministic function of (s, sep) - uninterpreted split.n (count) and split.at (pieces) - with at least one piece.
+    What the pieces ARE is stated by the assumed lemma split_characterisation (LEMMAS), used only where a proof needs it."""
+    from pyvc.values import Unsupported, VList, to_z3
+    if len(args) != 2 or kw or not isinstance(args[1], str) or args[1] == "":
+        raise Unsupported("str.split: only s.split(<constant non-empty separator>) is modelled")
+    if isinstance(args[0], str):
+        return e.list_literal(args[0].split(args[1]), ("str",))
+    s, sep = to_z3(args[0]), _z3.StringVal(args[1])
+    n = e.ufun("split.n", _z3.StringSort(), _z3.StringSort(), _z3.IntSort())(s, sep)
+    at = e.ufun("split.at", _z3.StringSort(), _z3.StringSort(), _z3.ArraySort(_z3.IntSort(), _z3.StringSort()))(s, sep)
+    if st is not None:
+        st.assume(n >= 1)
+    return VList(n, at, ("str",))
+
+
+_ext_split.pure = True
+
+
+def _ext_split_off(e, args, kw, node, st):
+    """spec-only: offsets of the pieces of split(s, sep) in s (uninterpreted; constrained by split_characterisation)"""
+    from pyvc.values import VList, to_z3
+    s, sep = to_z3(args[0]), to_z3(args[1])
+    n = e.ufun("split.n", _z3.StringSort(), _z3.StringSort(), _z3.IntSort())(s, sep)
+    off = e.ufun("split.off", _z3.StringSort(), _z3.StringSort(), _z3.ArraySort(_z3.IntSort(), _z3.IntSort()))(s, sep)
+    return VList(n + 1, off, ("int",))
+
+
+def _ext_strip(e, args, kw, node, st):
+    """str.strip() without arguments: a deterministic function of the string (uninterpreted py_strip); nothing else assumed"""
+    from pyvc.values import Unsupported, to_z3
+    if len(args) != 1:
+        raise Unsupported("str.strip(chars)")
+    if isinstance(args[0], str):
+        return args[0].strip()
+    return e.ufun("py_strip", _z3.StringSort(), _z3.StringSort())(to_z3(args[0]))
+
+
+_ext_strip.pure = True
+
+
+def _ext_int_ok(e, args, kw, node, st):
+    """spec-only: int(s) does not raise ValueError - the engine's own condition, obtained by running its model of int(s)
+    (pyvc/calls.py ext_int_of_str) and collecting the ValueError condition it records"""
+    from pyvc.expr import NOT, OR
+    from pyvc.state import State
+    from pyvc.values import to_z3
+    saved = (e.spec, e.mayraise, e.guard)
+    e.spec, e.mayraise, e.guard = False, [], []
+    try:
+        e.ext_int_of_str(to_z3(args[0]), None, State())
+        conds = [c for c, exc, _ in e.mayraise if exc == "ValueError"]
+    finally:
+        e.spec, e.mayraise, e.guard = saved
+    return NOT(OR(*conds))
+
+
+def _idata_key(e, key):
+    from pyvc.values import Unsupported
+    if not isinstance(key, str):
+        raise Unsupported("InteractionsData[<non-constant key>]")
+    return key in CLASSES["InteractionsData"]["fields"]
+
+
+def _idata_getitem(e, args, kw, node, st):
+    """d[k] of the fixed-key dict object: the heap field k; KeyError for any other key"""
+    if not _idata_key(e, args[1]):
+        e.may_raise(True, "KeyError", node)
+        return None
+    return e.heap_read(st, args[0], args[1])
+
+
+_idata_getitem.pure = True
+
+
+def _idata_setitem(e, args, kw, node, st):
+    """write-back of a mutated list held under key k (the engine models `d[k].append(x)` as d[k] = d[k] + [x])"""
+    from pyvc.values import Unsupported
+    if not _idata_key(e, args[1]):
+        raise Unsupported("store of a new key into the fixed-key dict object")
+    e.heap_write(st, args[0], args[1], args[2])
+    return None
+
+
+EXTERNALS = {"str.split": _ext_split, "str.strip": _ext_strip, "spec.int_ok": _ext_int_ok, "spec.split_off": _ext_split_off,
+             "InteractionsData.__getitem__": _idata_getitem, "InteractionsData.__setitem__": _idata_setitem}
+SPEC_EXTERNALS = {"split": "str.split", "strip": "str.strip", "int_ok": "spec.int_ok", "split_off": "spec.split_off"}
+
+LEMMAS = {
+    # what s.split(sep) is (Python language reference): the maximal sep-free pieces of s, in order.  With off = the offsets of
+    # the pieces: the pieces are substrings of s at those offsets, each followed by sep except the last, which ends s; no piece
+    # contains sep.  (Joining the pieces with sep gives s; the count is the number of occurrences of sep plus one.)
+    "split_characterisation": {
+        "kind": "assumed-external", "params": ["s", "sep"], "shapes": ["str", "str"],
+        "ensures": ["len(split(s, sep)) >= 1 and split_off(s, sep)[0] == 0",
+                    "forall(lambda i: implies(0 <= i and i < len(split(s, sep)), not (sep in split(s, sep)[i]) and split_off(s, sep)[i] >= 0 "
+                    "and split(s, sep)[i] == s[split_off(s, sep)[i]:split_off(s, sep)[i] + len(split(s, sep)[i])] "
+                    "and split_off(s, sep)[i + 1] == split_off(s, sep)[i] + len(split(s, sep)[i]) + len(sep)))",
+                    "forall(lambda i: implies(0 <= i and i + 1 < len(split(s, sep)), "
+                    "s[split_off(s, sep)[i] + len(split(s, sep)[i]):split_off(s, sep)[i + 1]] == sep))",
+                    "split_off(s, sep)[len(split(s, sep))] == len(s) + len(sep)"]},
+}
+
+
+# --------------------------------------------------------------------------------------------- FR3D unit ids
+@spec
+def ufields(u):
+    """the '|'-separated fields of a unit id"""
+    return split(u, "|")
+
+
+# numeral(s): "s is an integer numeral", i.e. int(s) does not raise ValueError - an abbreviation (definitional lemma
+# numeral_definition) that keeps the regular language of Python's integer literals out of the callers' obligations
+UFUNS = {"numeral": (["str"], "bool")}
+LEMMAS["numeral_definition"] = {"kind": "definition", "params": ["s"], "shapes": ["str"], "ensures": ["numeral(s) == int_ok(s)"]}
+
+
+@spec
+def parsable(u):
+    """a well-formed unit id: at least 5 fields, field 4 (0-based) an integer numeral"""
+    return len(ufields(u)) >= 5 and numeral(ufields(u)[4])
+
+
+@spec
+def unit_residue(u):
+    """the residue a well-formed unit id names: chain = field 2, name = field 3, number = field 4, insertion code = field 7
+    when there are at least 8 fields and field 7 is not empty"""
+    return rec(Residue, label=None,
+               auth=rec(ResidueAuth, chain=ufields(u)[2], number=int(ufields(u)[4]),
+                        icode=ite(len(ufields(u)) >= 8 and ufields(u)[7] != "", ufields(u)[7], None), name=ufields(u)[3]))
+
+
+class parse_unit_id_c:
+    params = {"nt": "str"}
+    requires = []
+    returns = "rec[Residue]"
+    # a pure function of nt: nothing is written, the result is the value unit_residue(nt)
+    ensures = ["result == unit_residue(nt)",
+               "result.label is None and result.auth is not None and result.auth.chain == ufields(nt)[2] and result.auth.name == ufields(nt)[3]",
+               "result.auth.number == int(ufields(nt)[4])",
+               "result.auth.icode == ite(len(ufields(nt)) >= 8 and ufields(nt)[7] != '', ufields(nt)[7], None)"]
+    ensures_labels = {0: "result-is-a-function-of-the-unit-id", 1: "chain-is-field-2-name-is-field-3", 2: "number-is-field-4",
+                      3: "insertion-code-is-field-7-when-present-and-non-empty"}
+    raises = {"IndexError": "len(ufields(nt)) < 5", "ValueError": "len(ufields(nt)) >= 5 and not numeral(ufields(nt)[4])"}
+    raises_exact = ["IndexError", "ValueError"]
+    modifies = []
+    ghost_entry = ["use numeral_definition(ufields(nt)[4])"]
+
+
+# --------------------------------------------------------------------------------------------- label -> class (callee view)
+@spec
+def lw_of(l):
+    return CLS[char(core(l), 0).lower() + char(core(l), 1).upper() + char(core(l), 2).upper()]
+
+
+@spec
+def st_of(l):
+    return CLS[ite(core(l)[:3] == 's33', 'downward', ite(core(l)[:3] == 's55', 'upward', ite(core(l)[:3] == 's35', 'outward', 'inward')))]
+
+
+@spec
+def bph_of(l):
+    return CLS[core(l)[:4]]
+
+
+@spec
+def br_of(l):
+    return CLS[core(l)[:3]]
+
+
+# Abbreviations (explicit definitions: conservative extensions, listed as such in props/C19.py) that keep the regular
+# languages of the labels and the class tables out of the callers' obligations:
+#   isLW / isST / isBPH / isBR (lbl): lbl belongs to the language of Leontis-Westhof / stacking / base-phosphate / base-ribose
+#                                     labels of the property (label_language_definition)
+#   class_of(lbl): the class (member of the four classification enums, union encoding) a recognised label denotes
+UFUNS.update({"isLW": (["str"], "bool"), "isST": (["str"], "bool"), "isBPH": (["str"], "bool"), "isBR": (["str"], "bool"),
+              "class_of": (["str"], "int")})
+LEMMAS["label_language_definition"] = {"kind": "definition", "params": ["lbl"], "shapes": ["str"], "ensures": [
+    "isLW(lbl) == matches(lbl, LW_RE)", "isST(lbl) == matches(lbl, ST_RE)", "isBPH(lbl) == matches(lbl, BPH_RE)", "isBR(lbl) == matches(lbl, BR_RE)"]}
+LEMMAS["class_of_definition"] = {"kind": "definition", "params": ["lbl"], "shapes": ["str"], "ensures": [
+    "class_of(lbl) == ite(isLW(lbl), lw_of(lbl), ite(isST(lbl), st_of(lbl), ite(isBR(lbl), br_of(lbl), bph_of(lbl))))"]}
+# the four label languages are pairwise disjoint (so "the category a label denotes" is well defined): proved, not assumed
+LEMMAS["label_languages_disjoint"] = {"kind": "smt", "params": ["lbl"], "shapes": ["str"], "ensures": [
+    "not (matches(lbl, LW_RE) and matches(lbl, ST_RE))", "not (matches(lbl, LW_RE) and matches(lbl, BPH_RE))",
+    "not (matches(lbl, LW_RE) and matches(lbl, BR_RE))", "not (matches(lbl, ST_RE) and matches(lbl, BPH_RE))",
+    "not (matches(lbl, ST_RE) and matches(lbl, BR_RE))", "not (matches(lbl, BPH_RE) and matches(lbl, BR_RE))"]}
+
+
+@spec
+def recognised(lbl):
+    return isLW(lbl) or isST(lbl) or isBPH(lbl) or isBR(lbl)
+
+
+class unify_callee(unify):
+    """the contract of unify_classification as its callers use it: the same five clauses, with the returned pair given a
+    shape (category string, member of one of the four classification enums or None) and the label languages / class tables
+    behind their abbreviations; `result[1].value == v` of the contract above reads `result[1] == CLS[v]` inside class_of
+    (CLS: value -> member, values are unique over the four classes).  Proved on the same code with the definitions unfolded
+    for the argument."""
+    returns = "tuple[str," + UNION + "]"
+    ensures = [
+        "implies(isLW(fr3d_name), result[0] == 'base-pair' and result[1] == class_of(fr3d_name))",
+        "implies(isST(fr3d_name), result[0] == 'stacking' and result[1] == class_of(fr3d_name))",
+        "implies(isBPH(fr3d_name), result[0] == 'base-phosphate' and result[1] == class_of(fr3d_name))",
+        "implies(isBR(fr3d_name), result[0] == 'base-ribose' and result[1] == class_of(fr3d_name))",
+        "implies(not recognised(fr3d_name), result[0] == 'other' and result[1] is None)",
+    ]
+    modifies = []
+    # proof, at every exit: (1) the five clauses of the contract above (`.value == v` read as `== CLS[v]`) are proved from the
+    # path; (2) from these five facts and the definitions of the abbreviations (unfolded for the argument) alone, the clauses below
+    ghost_exit = [
+        "assert implies(matches(fr3d_name, LW_RE), result[0] == 'base-pair' and result[1] == lw_of(fr3d_name))",
+        "assert implies(matches(fr3d_name, ST_RE), result[0] == 'stacking' and result[1] == st_of(fr3d_name))",
+        "assert implies(matches(fr3d_name, BPH_RE), result[0] == 'base-phosphate' and result[1] == bph_of(fr3d_name))",
+        "assert implies(matches(fr3d_name, BR_RE), result[0] == 'base-ribose' and result[1] == br_of(fr3d_name))",
+        "assert implies(not (matches(fr3d_name, LW_RE) or matches(fr3d_name, ST_RE) or matches(fr3d_name, BPH_RE) or matches(fr3d_name, BR_RE)), result[0] == 'other' and result[1] is None)",
+        "keep 5",
+        "use label_language_definition(fr3d_name)",
+        "use class_of_definition(fr3d_name)"]
+
+
+# --------------------------------------------------------------------------------------------- one FR3D line
+@spec
+def tabs(l):
+    """the tab-separated fields of a listing line: unit id, label, unit id"""
+    return split(l, "\t")
+
+
+@spec
+def line_ok(l):
+    """a line with two well-formed unit ids"""
+    return len(tabs(l)) >= 3 and parsable(tabs(l)[0]) and parsable(tabs(l)[2])
+
+
+@spec
+def denotes(c, lbl):
+    """the label denotes category c: 0 base pair, 1 stacking, 2 base-ribose, 3 base-phosphate, 4 other (= unrecognised)"""
+    return ite(c == 0, isLW(lbl), ite(c == 1, isST(lbl), ite(c == 2, isBR(lbl), ite(c == 3, isBPH(lbl), not recognised(lbl)))))
+
+
+@spec
+def condc(c, s):
+    """the (stripped) line s has two parsable unit ids and its label denotes category c"""
+    return line_ok(s) and denotes(c, tabs(s)[1])
+
+
+@spec
+def bp_of(l):
+    return rec(BasePair, nt1=unit_residue(tabs(l)[0]), nt2=unit_residue(tabs(l)[2]), lw=class_of(tabs(l)[1]), saenger=None)
+
+
+@spec
+def stk_of(l):
+    return rec(Stacking, nt1=unit_residue(tabs(l)[0]), nt2=unit_residue(tabs(l)[2]), topology=class_of(tabs(l)[1]))
+
+
+@spec
+def bph_int_of(l):
+    return rec(BasePhosphate, nt1=unit_residue(tabs(l)[0]), nt2=unit_residue(tabs(l)[2]), bph=class_of(tabs(l)[1]))
+
+
+@spec
+def br_int_of(l):
+    return rec(BaseRibose, nt1=unit_residue(tabs(l)[0]), nt2=unit_residue(tabs(l)[2]), br=class_of(tabs(l)[1]))
+
+
+@spec
+def other_of(l):
+    return rec(OtherInteraction, nt1=unit_residue(tabs(l)[0]), nt2=unit_residue(tabs(l)[2]))
+
+
+# tag, key of the dict object, field of BaseInteractions, category number, interaction of a line
+_CATS = [("bp", "base_pairs", "basePairs", 0, "bp_of"),
+         ("st", "stackings", "stackings", 1, "stk_of"),
+         ("br", "base_ribose_interactions", "baseRiboseInteractions", 2, "br_int_of"),
+         ("bph", "base_phosphate_interactions", "basePhosphateInteractions", 3, "bph_int_of"),
+         ("ot", "other_interactions", "otherInteractions", 4, "other_of")]
+
+
+class process_line_c:
+    """Each category list is its old value with the line's interaction appended iff the line has two parsable unit ids and
+    its label denotes that category, and is untouched otherwise.  (The label languages are pairwise disjoint - lemma
+    label_languages_disjoint - and `other` is their complement: a parsable line appends exactly one interaction to exactly
+    one list, any other line appends nothing.)"""
+    params = {"line": "str", "interactions_data": "InteractionsData"}
+    # the label handed to unify_classification is ASCII (that contract's precondition)
+    requires = ["implies(len(tabs(line)) >= 3, matches(tabs(line)[1], ASCII))"]
+    returns = "bool"
+    raises = []
+    callee_variants = {"unify_classification": "callee"}
+    modifies = [f"InteractionsData.{c[1]}@interactions_data" for c in _CATS]
+    ensures = ["result == line_ok(line)"] + [
+        f"interactions_data.{key} == ite(condc({cat}, line), snoc(old(interactions_data.{key}), {item}(line)), old(interactions_data.{key}))"
+        for _, key, _, cat, item in _CATS]
+    ensures_labels = {0: "True-iff-two-parsable-unit-ids",
+                      1: "base_pairs-gets-one-pair-of-the-denoted-class-between-exactly-those-residues-iff-parsable-with-LW-label-else-untouched",
+                      2: "stackings-gets-one-stacking-of-the-denoted-topology-iff-parsable-with-stacking-label-else-untouched",
+                      3: "base_ribose-gets-one-interaction-of-the-denoted-class-iff-parsable-with-BR-label-else-untouched",
+                      4: "base_phosphate-gets-one-interaction-of-the-denoted-class-iff-parsable-with-BPh-label-else-untouched",
+                      5: "other-gets-one-interaction-iff-parsable-with-unrecognised-label-else-untouched"}
+
+
+CONTRACTS.update({
+    "parse_unit_id": parse_unit_id_c,
+    "unify_classification@callee": unify_callee,
+    "_process_interaction_line": process_line_c,
+})
+
+
+# --------------------------------------------------------------------------------------------- the listing (file) loop
+CLASSES["TextFile"] = {"kind": "object", "boxed_list": "lines", "fields": {"lines": "list[str]"}}
+
+
+def _file_lines(e, path):
+    from pyvc.values import VList, to_z3
+    p = to_z3(path)
+    n = e.ufun("fs.nlines", _z3.StringSort(), _z3.IntSort())(p)
+    at = e.ufun("fs.lines", _z3.StringSort(), _z3.ArraySort(_z3.IntSort(), _z3.StringSort()))(p)
+    return VList(n, at, ("str",))
+
+
+def _ext_file_lines(e, args, kw, node, st):
+    """spec-only: the lines of the text file at `path` (what iterating the open file yields), a function of the path"""
+    return _file_lines(e, args[0])
+
+
+def _ext_file_text(e, args, kw, node, st):
+    """spec-only: the whole text of the file at `path` (what read() returns), a function of the path"""
+    from pyvc.values import to_z3
+    return e.ufun("fs.text", _z3.StringSort(), _z3.StringSort())(to_z3(args[0]))
+
+
+def _ext_open(e, args, kw, node, st):
+    """ASSUMED contract of open(path[, "r"]) for reading text: the file exists and is readable (no OSError), and the object
+    returned yields, when iterated, the lines file_lines(path) - a function of the path (the file does not change meanwhile)"""
+    from pyvc.values import Unsupported, to_z3
+    if not (1 <= len(args) <= 2) or kw or (len(args) == 2 and args[1] != "r"):
+        raise Unsupported("open(): only open(path) / open(path, 'r') is modelled")
+    lines = _file_lines(e, args[0])
+    st.assume(to_z3(lines.length) >= 0)
+    f = e.construct("TextFile", [lines], {}, node, st)
+    st.ghost.setdefault("__file_paths", {})
+    st.ghost["__file_paths"] = dict(st.ghost["__file_paths"], **{str(to_z3(f.ident)): args[0]})
+    return f
+
+
+def _tf_enter(e, args, kw, node, st):
+    return args[0]
+
+
+def _tf_exit(e, args, kw, node, st):
+    return None  # closes the file; never swallows an exception
+
+
+def _tf_read(e, args, kw, node, st):
+    """read() of a file just opened: its whole text, a function of the path it was opened with"""
+    from pyvc.values import Unsupported, to_z3
+    path = st.ghost.get("__file_paths", {}).get(str(to_z3(args[0].ident)))
+    if path is None or len(args) != 1:
+        raise Unsupported("read() of a file object that was not opened in this function")
+    return _ext_file_text(e, [path], {}, node, st)
+
+
+_tf_enter.pure = _tf_exit.pure = _tf_read.pure = True
+EXTERNALS.update({"builtins.open": _ext_open, "TextFile.__enter__": _tf_enter, "TextFile.__exit__": _tf_exit, "TextFile.read": _tf_read,
+                  "spec.file_lines": _ext_file_lines, "spec.file_text": _ext_file_text})
+SPEC_EXTERNALS.update({"file_lines": "spec.file_lines", "file_text": "spec.file_text"})
+
+
+@spec
+def proc(s):
+    """a (stripped) line that is processed: not empty, not a comment"""
+    return len(s) > 0 and not s.startswith("#")
+
+
+@spec
+def sl(path, l):
+    """line l of the listing, stripped"""
+    return strip(file_lines(path)[l])
+
+
+def _imports(tag, cat, lst, item, n, path="file_path"):
+    """list `lst` holds exactly one interaction per selected line below n, in line order: S_<tag>[j] = line of element j
+    (strictly increasing), P_<tag>[l] = position of the element of selected line l"""
+    S, P = f"S_{tag}", f"P_{tag}"
+    return [f"len({S}) == len({lst}) and len({lst}) >= 0 and len({P}) == {n}",
+            f"forall(lambda j: implies(0 <= j and j < len({S}), 0 <= {S}[j] and {S}[j] < {n} and proc(sl({path}, {S}[j])) and condc({cat}, sl({path}, {S}[j])) and {lst}[j] == {item}(sl({path}, {S}[j]))))",
+            f"forall(lambda j, j2: implies(0 <= j and j < j2 and j2 < len({S}), {S}[j] < {S}[j2]))",
+            f"forall(lambda l: implies(0 <= l and l < {n} and proc(sl({path}, l)) and condc({cat}, sl({path}, l)), 0 <= {P}[l] and {P}[l] < len({S}) and {S}[{P}[l]] == l))"]
+
+
+class parse_fr3d_output_c:
+    params = {"file_path": "str"}
+    # labels are ASCII (precondition of unify_classification's contract)
+    requires = ["forall(lambda l: implies(0 <= l and l < len(file_lines(file_path)) and len(tabs(sl(file_path, l))) >= 3, matches(tabs(sl(file_path, l))[1], ASCII)))"]
+    returns = "rec[BaseInteractions]"
+    raises = []
+    modifies = []
+    locals = {"interactions_data": "InteractionsData"}
+    ghost_returns = dict([(f"S_{c[0]}", "list[int]") for c in _CATS] + [(f"P_{c[0]}", "list[int]") for c in _CATS])
+    ghost_entry = [f"let S_{c[0]} = empty('list[int]')" for c in _CATS] + [f"let P_{c[0]} = empty('list[int]')" for c in _CATS]
+    ensures = [t for c in _CATS for t in _imports(c[0], c[3], f"result.{c[2]}", c[4], "len(file_lines(file_path))")]
+    ensures_labels = {4 * k + j: f"{c[2]}-{what}" for k, c in enumerate(_CATS) for j, what in enumerate(
+        ["one-source-line-per-interaction", "each-interaction-is-the-one-its-parsable-line-denotes", "in-line-order-each-line-once",
+         "every-parsable-line-of-the-category-is-imported"])}
+    loops = {0: {"index": "i", "writes": [f"InteractionsData.{c[1]}" for c in _CATS],
+                 "touches": {f"InteractionsData.{c[1]}": ["interactions_data"] for c in _CATS},
+                 "inv": [t for c in _CATS for t in _imports(c[0], c[3], f"interactions_data.{c[1]}", c[4], "i")]}}
+    ghost = [
+        {"when": "before", "at": "continue", "loop": 0, "label": "skipped-line", "do": [f"let P_{c[0]} = snoc(P_{c[0]}, 0 - 1)" for c in _CATS]},
+        {"when": "after", "at": "_process_interaction_line(line, interactions_data)", "loop": 0, "label": "processed-line",
+         "do": [cmd for c in _CATS for cmd in (
+             f"let S_{c[0]} = ite(condc({c[3]}, line), snoc(S_{c[0]}, i), S_{c[0]})",
+             f"let P_{c[0]} = snoc(P_{c[0]}, len(S_{c[0]}) - 1)")]},
+    ]
+
+
+CONTRACTS.update({
+    "parse_fr3d_output": parse_fr3d_output_c,
+})
+
+
+# =====================================================================================================================
+# DSSR
+# =====================================================================================================================
+class match_dssr_lw_c:
+    """finite: exactly the 18 Leontis-Westhof member names (written out in LW_VALUES above: c/t x W/H/S x W/H/S) are accepted
+    and give that member; anything else - None, any other string, names of other attributes of the class - gives None"""
+    params = {"lw": "opt[str]"}
+    requires = []
+    returns = UNION
+    raises = []
+    modifies = []
+    ensures = ["implies(lw is not None and some(lw) in LW_NAMES, result is not None and some(result) == CLS[some(lw)])",
+               "implies(lw is None or some(lw) not in LW_NAMES, result is None)"]
+    ensures_labels = {0: "a-member-name-gives-that-member", 1: "anything-else-gives-None"}
+
+
+CONTRACTS.update({"match_dssr_lw": match_dssr_lw_c})
+
+# A Residue3D of the structure is represented by its Residue part (label, auth): `full_name` (common.py, a cached property) reads
+# exactly these two fields - modelled as an uninterpreted function of the record (ASSUMED pure, and a string: requires below)
+CLASSES["Structure3D"] = {"kind": "object", "fields": {"residues": "list[rec[Residue]]"}}
+PURE_ATTRS = {"Residue.full_name": "str"}
+
+
+@spec
+def dssr_key(n):
+    """the residue name of a DSSR nucleotide id: what follows the last ':' (the model prefix '1:' is dropped)"""
+    return split(n, ":")[len(split(n, ":")) - 1]
+
+
+@spec
+def named(R, key):
+    """some residue of the list carries the name"""
+    return exists(lambda k: 0 <= k and k < len(R) and R[k].full_name == key)
+
+
+@spec
+def first_named(R, key, r):
+    """r is the FIRST residue of the list that carries the name"""
+    return exists(lambda k: 0 <= k and k < len(R) and r == R[k] and R[k].full_name == key
+                  and forall(lambda j: implies(0 <= j and j < k, R[j].full_name != key)))
+
+
+@spec
+def identified(R):
+    """every residue has an auth or a label identity (its full_name is a string, not None)"""
+    return forall(lambda k: implies(0 <= k and k < len(R), R[k].auth is not None or R[k].label is not None))
+
+
+class match_name_c:
+    params = {"structure3d": "Structure3D", "nt_id": "opt[str]"}
+    requires = ["identified(structure3d.residues)"]
+    returns = "opt[rec[Residue]]"
+    raises = []
+    modifies = []
+    ensures = ["implies(nt_id is None, result is None)",
+               "implies(nt_id is not None and not named(structure3d.residues, dssr_key(some(nt_id))), result is None)",
+               "implies(nt_id is not None and named(structure3d.residues, dssr_key(some(nt_id))), result is not None and first_named(structure3d.residues, dssr_key(some(nt_id)), some(result)))"]
+    ensures_labels = {0: "no-name-no-residue", 1: "a-name-no-residue-carries-resolves-to-None", 2: "a-name-resolves-to-the-first-residue-carrying-it"}
+    loops = {0: {"index": "k", "inv": ["forall(lambda j: implies(0 <= j and j < k, structure3d.residues[j].full_name != nt_id))"]}}
+
+
+CONTRACTS.update({"match_dssr_name_to_residue": match_name_c})
+
+
+# --------------------------------------------------------------------------------------------- the DSSR JSON document
+# ASSUMED schema of the document orjson.loads returns (DSSR's --json output): a dict that may hold "models" (a list of dicts
+# with an integer "model" and a dict "parameters"), "pairs" (a list of dicts whose "nt1", "nt2", "LW" are strings when
+# present) and "stacks" (a list of dicts with a string "nts_long").  DssrDoc / DssrModel are objects whose fields give, per
+# key, presence and value; DssrPair / DssrStack are fixed-key dicts read with .get (absent or null -> None / "").
+CLASSES.update({
+    "DssrPair": {"kind": "record", "dict_keys": True, "fields": {"nt1": "opt[str]", "nt2": "opt[str]", "LW": "opt[str]"}},
+    "DssrStack": {"kind": "record", "dict_keys": True, "fields": {"nts_long": "str"}},
+    "DssrDoc": {"kind": "object", "fields": {"has_models": "bool", "models": "list[DssrModel]", "has_pairs": "bool", "pairs": "list[rec[DssrPair]]",
+                                             "has_stacks": "bool", "stacks": "list[rec[DssrStack]]"}},
+    "DssrModel": {"kind": "object", "fields": {"model": "opt[int]", "has_parameters": "bool", "parameters": "DssrDoc"}},
+})
+
+
+def _new_object(e, st, cls):
+    from pyvc.values import VRef, is_leaf
+    ref = VRef(cls, st.alloc)
+    st.alloc = st.alloc + 1 if not is_leaf(st.alloc) else _z3.simplify(st.alloc + 1)
+    return ref
+
+
+def _ext_orjson_loads(e, args, kw, node, st):
+    """ASSUMED contract of orjson.loads(text): a new document object of the schema above; nothing is assumed about its
+    content (the fields of the new object are unconstrained).  Also creates the empty dict `{}` that the .get defaults of the
+    code denote (no key present)."""
+    doc = _new_object(e, st, "DssrDoc")
+    empty = _new_object(e, st, "DssrDoc")
+    for f in ("has_models", "has_pairs", "has_stacks"):
+        e.heap_write(st, empty, f, False)
+    st.ghost["__dssr_empty"] = empty
+    return doc
+
+
+def _const_key(key, allowed, what):
+    from pyvc.values import Unsupported
+    if not isinstance(key, str) or key not in allowed:
+        raise Unsupported(f"{what}: key {key!r} is outside the modelled schema")
+    return key
+
+
+def _doc_contains(e, args, kw, node, st):
+    key = _const_key(args[1], ("models", "pairs", "stacks"), "`key in document`")
+    return e.heap_read(st, args[0], "has_" + key)
+
+
+def _doc_get(e, args, kw, node, st):
+    """document.get(key[, default]) for key in models / pairs / stacks: the value if the key is present, else the default"""
+    from pyvc.values import Unsupported, VList, VOpt, ite_tree, to_z3
+    key = _const_key(args[1], ("models", "pairs", "stacks"), "document.get")
+    has, val = to_z3(e.heap_read(st, args[0], "has_" + key)), e.heap_read(st, args[0], key)
+    if len(args) == 2:
+        if any(f.eq(has) for f in st.pc):
+            return val  # the key is known to be present on this path
+        return VOpt(_z3.Not(has), val)
+    if len(args) == 3 and isinstance(args[2], VList) and args[2].elems is None:
+        empties = e.__dict__.setdefault("_dssr_empty_lists", {})  # one empty list per key (the same term wherever it is evaluated)
+        if key not in empties:
+            empties[key] = e.default_of(("list", val.eshape))
+        return ite_tree(has, val, empties[key])
+    raise Unsupported("document.get with this default")
+
+
+def _model_get(e, args, kw, node, st):
+    """models[k].get("model", None) / .get("parameters", {})"""
+    from pyvc.values import Unsupported, VRef, to_z3
+    key = _const_key(args[1], ("model", "parameters"), "model entry .get")
+    if key == "model" and len(args) == 3 and args[2] is None:
+        return e.heap_read(st, args[0], "model")
+    if key == "parameters" and len(args) == 3 and type(args[2]).__name__ == "VEmptyDict" and "__dssr_empty" in st.ghost:
+        has, val = to_z3(e.heap_read(st, args[0], "has_parameters")), e.heap_read(st, args[0], "parameters")
+        return VRef("DssrDoc", _z3.If(has, to_z3(val.ident), to_z3(st.ghost["__dssr_empty"].ident)))
+    raise Unsupported("model entry .get with these arguments")
+
+
+_doc_contains.pure = _doc_get.pure = _model_get.pure = True
+EXTERNALS.update({"orjson.loads": _ext_orjson_loads, "DssrDoc.__contains__": _doc_contains, "DssrDoc.get": _doc_get, "DssrModel.get": _model_get})
+
+
+@spec
+def doc_pairs(d):
+    return ite(d.has_pairs, d.pairs, empty('list[rec[DssrPair]]'))
+
+
+@spec
+def doc_stacks(d):
+    return ite(d.has_stacks, d.stacks, empty('list[rec[DssrStack]]'))
+
+
+@spec
+def resolves(R, n):
+    """the DSSR nucleotide id n names a residue of the structure"""
+    return n is not None and named(R, dssr_key(some(n)))
+
+
+# lwname(s): s is one of the 18 Leontis-Westhof member names; lwclass(s): that member (union encoding) - abbreviations
+# (definitional lemma lw_name_definition) that keep the 18-way case split out of the loop's quantified invariants
+UFUNS.update({"lwname": (["str"], "bool"), "lwclass": (["str"], "int")})
+LEMMAS["lw_name_definition"] = {"kind": "definition", "params": ["s"], "shapes": ["str"], "ensures": ["lwname(s) == (s in LW_NAMES)", "lwclass(s) == CLS[s]"]}
+
+
+@spec
+def valid_lw(l):
+    return l is not None and lwname(some(l))
+
+
+@spec
+def pair_kept(R, p):
+    """a pair that carries a valid class and whose two residue names resolve"""
+    return resolves(R, p.nt1) and resolves(R, p.nt2) and valid_lw(p.LW)
+
+
+@spec
+def pair_imported(R, p, b):
+    """b is the base pair the document's pair p denotes: the two resolved residues, the named class, no Saenger class"""
+    return (first_named(R, dssr_key(some(p.nt1)), b.nt1) and first_named(R, dssr_key(some(p.nt2)), b.nt2)
+            and b.lw == lwclass(some(p.LW)) and b.saenger is None)
+
+
+_PAIR_INV = [
+    "len(S_p) == len(base_pairs) and len(base_pairs) >= 0 and len(P_p) == {n}",
+    "forall(lambda j: implies(0 <= j and j < len(S_p), 0 <= S_p[j] and S_p[j] < {n} and pair_kept(structure3d.residues, {PL}[S_p[j]]) "
+    "and pair_imported(structure3d.residues, {PL}[S_p[j]], base_pairs[j])))",
+    "forall(lambda j, j2: implies(0 <= j and j < j2 and j2 < len(S_p), S_p[j] < S_p[j2]))",
+    "forall(lambda l: implies(0 <= l and l < {n} and pair_kept(structure3d.residues, {PL}[l]), 0 <= P_p[l] and P_p[l] < len(S_p) and S_p[P_p[l]] == l))",
+]
+_PAIR_LABELS = ["one-source-pair-per-base-pair", "each-base-pair-joins-the-resolved-residues-with-the-named-class", "in-document-order-each-once",
+                "every-pair-with-valid-class-and-resolvable-names-is-kept"]
+
+
+class parse_dssr_pairs_c:
+    """PREFIX contract: parse_dssr_output up to (not including) the stacks loop.  D = the document whose pairs are imported
+    (the selected model's parameters, or the document itself); S_p[j] = position in D's pairs of base pair j; P_p[l] =
+    position in base_pairs of the pair at position l"""
+    params = {"file_path": "str", "structure3d": "Structure3D", "model": "opt[int]"}
+    requires = ["identified(structure3d.residues)"]
+    raises = []
+    ensures = []
+    modifies = []
+    locals = {"base_pairs": "list[rec[BasePair]]", "stackings": "list[rec[Stacking]]"}
+    stop_before = "for stack in dssr.get('stacks'"
+    ghost_entry = ["let S_p = empty('list[int]')", "let P_p = empty('list[int]')"]
+    stop_ensures = [t.format(n="len(D.get('pairs', []))", PL="D.get('pairs', [])") for t in _PAIR_INV] + ["len(stackings) == 0"]
+    stop_ensures_labels = dict(enumerate(_PAIR_LABELS + ["no-stacking-yet"]))
+    loops = {0: {"inv": []},
+             # (the body appends to a local list; no list OBJECT - the open file's lines - is written: touches nothing)
+             1: {"index": "i", "iter": "PL", "touches": {"TextFile.lines": []}, "inv": [t.format(n="i", PL="PL") for t in _PAIR_INV],
+                 "labels": dict(enumerate(_PAIR_LABELS))}}
+    ghost = [
+        {"when": "before", "at": "for pair in dssr.get('pairs'", "label": "document-selected", "do": ["name dssr", "let D = dssr"]},
+        {"when": "after", "at": "lw = match_dssr_lw(", "loop": 1, "label": "class-name", "do": ["use lw_name_definition(some(pair.LW))"]},
+        {"when": "after", "at": "if nt1 is not None and nt2 is not None and (lw is not None)", "loop": 1, "label": "pair-done",
+         "do": ["let S_p = ite(pair_kept(structure3d.residues, pair), snoc(S_p, i), S_p)", "let P_p = snoc(P_p, len(S_p) - 1)"]},
+    ]
+
+
+CONTRACTS.update({"parse_dssr_output@pairs": parse_dssr_pairs_c})
